@@ -4,6 +4,21 @@ import json
 
 CHECKS = {
 
+ "C07": dict(
+  engine="E2+E6",
+  technique="bounded exhaustive enumeration of designs; independent validators (kin-openapi + hand-written Swagger 2.0 / OpenAPI 3.0.3 structural checkers) on the generated documents; recording muxer on the real generated Mount; comparison with a reference layout derived from the design data only",
+  text="For every linked design of every E2 family plus a route-feature family (all nine verbs, several routes per endpoint, API/service base paths incl. path parameters, trailing slashes, absolute routes, wildcards, file servers, security inheritance with NoSecurity), the four generated documents are checked: openapi3.json loads and validates with an independent validator plus the OpenAPI 3.0.3 MUSTs it omits, openapi.json decodes, converts and validates and passes a structural checker written from the Swagger 2.0 text, JSON and YAML decode to identical content; the multiset of (verb, pattern) pairs every generated Mount registers on a recording muxer equals the operations of each document in both directions; per route and document the documented (name, in, required) parameters, request body presence, status codes and security requirements equal the designed layout. Exhaustive within the envelope.",
+  design_ref="DESIGN.md section 3 C07, section 2 E6",
+  note="Examples are not validated (SHOULD); CONNECT, and TRACE/cookie parameters/bearer schemes in Swagger 2.0, are inexpressible and not demanded; credential attributes may be documented as parameters or only through their scheme; scopes and schemas are not compared (C14); compile-only families are checked without the mount-set comparison; that the server agrees with the designed layout is C02/C04's subject.",
+ ),
+ "C14": dict(
+  engine="E2+E6",
+  technique="bounded exhaustive enumeration of (design, value / malformed encoding / returned result or error) executed end to end through generated client and server; differential comparison between the server's decision and kin-openapi's openapi3filter on the generated document",
+  text="For every request C04 sends (both sides of every validation boundary, type menus, unset, plus hand-built malformed encodings) the http.Request exactly as the generated server parsed it is validated by an independent OpenAPI 3 request validator against the operation of openapi3.json, and the verdict must equal the server's decision (user code invoked <=> accepted), both directions; every success response for every valid result value and every declared-error response must validate against the documented response of its status code; operations documented through a schema shared with a differently constrained operation are reported and the body-located cases are re-run one method per design. Exhaustive within the envelope.",
+  design_ref="DESIGN.md section 3 C14, section 2 E6",
+  note="Format keywords are judged by constructive tables registered in the validator; integers beyond 2^53, C02/C03 delivery classes and nil-vs-empty collections are excluded; authentication is not evaluated; a JSON media type different from the single documented one is validated against that schema and only counted.",
+ ),
+
  "C09": dict(
   engine="E2+E4",
   technique="bounded exhaustive enumeration of (design, map-iteration-order deviation) pairs on generators instrumented at check time (every range over a map under a controller, one fresh process per deviation); same-process and fresh-process repetition; explicit-state BFS over output-directory histories with the real goa CLI",
@@ -97,16 +112,16 @@ CHECKS = {
  "C02": dict(
   engine="E2",
   technique="bounded exhaustive enumeration of (design, payload value) pairs executed through generated client -> in-memory HTTP wire -> generated server -> stub, compared with a reference model of locations and defaults",
-  text="For every accepted design of the L1 request families (complete product type x location x requiredness; ordered pairs over a reduced menu) and every valid payload value of the boundary menus (complete product per method), the payload handed to the generated client endpoint is compared with the payload received by the stub service behind the generated server, and the tapped server-side http.Request is checked attribute by attribute against the designed location (path segment, query key, header, cookie, JSON body key) and for undesigned query/body keys. Exhaustive within the envelope; both halves of the generated code are executed against each other, which no golden test does.",
+  text="For every accepted design of the L1 request families (complete product type x location x requiredness; ordered pairs over a reduced menu) and every valid payload value of the boundary menus (complete product per method), the payload handed to the generated client endpoint is compared with the payload received by the stub service behind the generated server, and the tapped server-side http.Request is checked attribute by attribute against the designed location (path segment, query key, header, cookie, JSON body key) and for undesigned query/body keys; a structural-feature family (all verbs, multiple routes, catch-all, map params, Body(attr)/Body(func), empty body, content types, primitive payloads) is driven the same way. In the thorough tier the same oracle is extended to HTTP (WebSocket) streaming endpoints (server, client, bidirectional and payload-carrying kinds x object, user type, string, int, array<string> elements) over loopback sockets: for every request sequence of length 0-3 over a 3-value alphabet (complete, plus every boundary value as a single message; bidirectional: complete product with the reply sequences under three fixed schedules) the scripted stub service must receive exactly the client messages in order followed by io.EOF, and the initial payload must arrive equal and in its designed location. Exhaustive within the envelope; both halves of the generated code are executed against each other, which no golden test does.",
   design_ref="DESIGN.md section 3 C02, section 2 E2",
-  note="In-memory wire (http.Request.Write -> http.ReadRequest -> goa muxer on a recorder) instead of sockets; equality normalisations listed in the evidence assumptions; streaming/multipart endpoints not driven in this revision.",
+  note="In-memory wire (http.Request.Write -> http.ReadRequest -> goa muxer on a recorder) instead of sockets; equality normalisations listed in the evidence assumptions; streaming driven in the thorough tier only; multipart not driven.",
  ),
  "C03": dict(
   engine="E2",
   technique="bounded exhaustive enumeration of (design, result value) pairs executed through stub -> generated server -> wire -> generated client, compared with a reference model of status selection, locations and defaults",
-  text="For every accepted design of the L1 response families and the status/tag family and every valid result value (complete product per method), the result returned by the stub service is compared with the value returned by the generated client endpoint; the status code must be the one the reference selects (first response whose tag matches, else the untagged one), every attribute must sit in its designed header/cookie/body position, and exactly one WriteHeader is issued. Exhaustive within the envelope.",
+  text="For every accepted design of the L1 response families and the status/tag family and every valid result value (complete product per method), the result returned by the stub service is compared with the value returned by the generated client endpoint; the status code must be the one the reference selects (first response whose tag matches, else the untagged one), every attribute must sit in its designed header/cookie/body position, and exactly one WriteHeader is issued; XML/gob/text content types are compared by value. Thorough tier: for WebSocket streaming endpoints every reply sequence of length 0-3 must reach the client in order followed by io.EOF (including the empty stream), and the final result of client-streaming endpoints must arrive equal. Exhaustive within the envelope.",
   design_ref="DESIGN.md section 3 C03, section 2 E2",
-  note="Same trusted base as C02; viewed results are covered by C08; streaming results not driven in this revision.",
+  note="Same trusted base as C02; viewed results are covered by C08; streaming driven in the thorough tier only.",
  ),
  "C04": dict(
   engine="E2",
@@ -171,6 +186,7 @@ def main():
             "add_only": True,
         },
         "engines": [
+            {"name": "E6", "path": "/verif/e2/drv/openapi.go", "serves_properties": ["C07", "C14"], "kind_free_text": "independent OpenAPI validators: kin-openapi loader/validator/openapi3filter with format validators backed by constructive tables, Swagger 2.0 structural checker written from the specification text, OpenAPI 3.0.3 MUST checks, JSON/YAML generic diff, recording muxer"},
             {"name": "E5", "path": "/verif/e5", "serves_properties": ["C10"], "kind_free_text": "stand-in protoc (cmd/protoc): strict proto3 parser for the subset goa emits, descriptor construction validated by protodesc.NewFile, genuine protoc-gen-go message code generated in-process, hand-written _grpc.pb.go generator"},
             {"name": "E3", "path": "/verif/sched", "serves_properties": ["C17", "C20"], "kind_free_text": "CHESS-style cooperative scheduler + stateless DFS explorer with iterative preemption bounding and sleep sets, vector-clock happens-before race oracle, sync/atomic shims; E4 source instrumenter (/verif/instr) producing go build -overlay copies of goa packages with scheduling points and shared-access hooks"},
             {"name": "E2", "path": "/verif/e2", "serves_properties": sorted(k for k, v in CHECKS.items() if "E2" in v["engine"]), "kind_free_text": "design-space enumerator (Spec + DSL builder + independent reference model), generate-compile-link pipeline (fresh genworker process per design, stub/glue generation from the generated interfaces' AST, go build of the corpus, one driver binary per family), generic reflection driver over an in-memory HTTP wire"},
